@@ -125,12 +125,14 @@ def ensure_coq_built(targets=None, props=()):
         # Print Assumptions report of the property files
         os.makedirs(os.path.join(COQ, "assumptions"), exist_ok=True)
         os.makedirs(os.path.join(VERIF, "build", "assum_tmp"), exist_ok=True)
-        for prop in props:
-            src = os.path.join(COQ, "theories", "Props", f"{prop}.v")
-            rep = os.path.join(COQ, "assumptions", f"{prop}.txt")
-            if os.path.exists(src) and (not os.path.exists(rep) or os.path.getmtime(rep) < os.path.getmtime(src[:-2] + ".vo")):
+        for src in [f for prop in props for f in _prop_files(prop)]:
+            base = os.path.basename(src)[:-2]
+            rep = os.path.join(COQ, "assumptions", f"{base}.txt")
+            if not os.path.exists(src[:-2] + ".vo"):
+                return False, f"{src} was not compiled"
+            if not os.path.exists(rep) or os.path.getmtime(rep) < os.path.getmtime(src[:-2] + ".vo"):
                 q = subprocess.run(["timeout", "600", "coqc", "-Q", "theories", "BT", "-w", "-all",
-                                    "-o", os.path.join(VERIF, "build", "assum_tmp", f"{prop}.vo"), src],
+                                    "-o", os.path.join(VERIF, "build", "assum_tmp", f"{base}.vo"), src],
                                    cwd=COQ, stdout=subprocess.PIPE, stderr=subprocess.STDOUT, text=True)
                 if q.returncode != 0:
                     return False, q.stdout[-3000:]
@@ -140,20 +142,33 @@ def ensure_coq_built(targets=None, props=()):
         lk.close()
 
 
+def _prop_files(prop_id):
+    """Props/<id>.v and Props/<id>_*.v (a property may be split over several theorem files)"""
+    d = os.path.join(COQ, "theories", "Props")
+    if not os.path.isdir(d):
+        return []
+    return sorted(os.path.join(d, f) for f in os.listdir(d)
+                  if f.endswith(".v") and (f == prop_id + ".v" or f.startswith(prop_id + "_")))
+
+
 def theorem_inventory(prop_id):
-    """Theorems of Props/<id>.v and whether the compiled file and its assumption report exist."""
-    src = os.path.join(COQ, "theories", "Props", f"{prop_id}.v")
-    if not os.path.exists(src):
-        return [], 0, []
-    text = open(src).read()
-    names = re.findall(r"^\s*(?:Theorem|Corollary)\s+(\w+)", text, re.M)
-    vo = src[:-2] + ".vo"
-    ok = os.path.exists(vo) and os.path.getmtime(vo) >= os.path.getmtime(src)
-    assum = []
-    rep = os.path.join(COQ, "assumptions", f"{prop_id}.txt")
-    if os.path.exists(rep):
-        assum = [l.rstrip() for l in open(rep).read().splitlines() if l.strip()]
-    return names, (len(names) if ok else 0), assum
+    """Theorems of the property's files and whether the compiled files and assumption reports exist."""
+    names, discharged, assum = [], 0, []
+    for src in _prop_files(prop_id):
+        text = open(src).read()
+        found = re.findall(r"^\s*(?:Theorem|Corollary)\s+(\w+)", text, re.M)
+        names += found
+        vo = src[:-2] + ".vo"
+        if os.path.exists(vo) and os.path.getmtime(vo) >= os.path.getmtime(src):
+            discharged += len(found)
+        rep = os.path.join(COQ, "assumptions", os.path.basename(src)[:-2] + ".txt")
+        if os.path.exists(rep):
+            assum += [l.rstrip() for l in open(rep).read().splitlines() if l.strip()]
+    # compress the report: count of closed theorems + anything else verbatim
+    closed = sum(1 for l in assum if l.startswith("Closed under the global context"))
+    other = [l for l in assum if not l.startswith("Closed under the global context")]
+    assum = [f"Closed under the global context  (x{closed})"] + other if assum else []
+    return names, discharged, assum
 
 
 # ----------------------------------------------------------------------------------------------
@@ -419,7 +434,7 @@ def run_check(prop: str, engine_mods, tier: str, seed: int, replay: str | None =
     known_lines = []
     parts = []
     try:
-        targets = ["theories/Props/%s.vo" % prop] if os.path.exists(os.path.join(COQ, "theories", "Props", prop + ".v")) else []
+        targets = [os.path.relpath(f, COQ)[:-2] + ".vo" for f in _prop_files(prop)]
         for em in engine_mods:
             targets += list(getattr(importlib.import_module(em), "COQ_TARGETS", []))
         built, log = ensure_coq_built(sorted(set(targets)) or None, props=[prop])
